@@ -487,6 +487,15 @@ def fam_conn(tier, seed):
         insts = [inst("A", conn=True, grace_us=grace)]
         steps = [{"at": 0, "do": "start", "i": "A"}, {"at": t1, "do": "disc", "i": "A"}, {"at": t1 + 200 * MS, "do": "out_put", "cls": "as:B"}]
         out.append(scn("conn-grace-covers-later-term-%d" % k, seed * 1000 + 980 + k, H, 5.0, insts, steps, "conn", t1 + 3 * grace + 2 * S, lat=20 * MS, watch=30 * MS))
+    # ... and with a reconnect notification received as a follower in between: no grace demotion of the later term
+    for k in range(3 if tier == "quick" else 20):
+        H = 500 * MS
+        grace = rng.choice([4200, 4400, 4600]) * MS
+        t1 = int((2.2 + rng.random()) * H)
+        insts = [inst("A", conn=True, grace_us=grace)]
+        steps = [{"at": 0, "do": "start", "i": "A"}, {"at": t1, "do": "disc", "i": "A"}, {"at": t1 + 200 * MS, "do": "out_put", "cls": "as:B"},
+                 {"at": t1 + rng.choice([1000, 1500, 2000]) * MS, "do": "reconn", "i": "A"}]
+        out.append(scn("conn-reconnect-as-follower-%d" % k, seed * 1000 + 985 + k, H, 5.0, insts, steps, "conn", t1 + 3 * grace + 2 * S, lat=20 * MS, watch=30 * MS))
     # a stop call issued while the reconnect handler stands between its leader check and the start of the verification
     # (scheduler gate at the handler's log line)
     for k in range(4 if tier == "quick" else 24):
